@@ -243,18 +243,19 @@ Record sys := {
   purges : list (host * ds);
   pool : list event;                   (* events not yet delivered to the controller *)
   dispatched : list (worker * task);   (* ghost: history of task commands *)
-  finished : gset task;                (* ghost: tasks whose body has run *)
+  finished : gset task;                (* ghost: tasks that have published all their outputs *)
+  published : gset ds;                 (* ghost: datasets a worker has written to shared memory so far *)
 }.
 
 Definition init (J : job) (E : env) : sys :=
   {| ctl := init_c J E; store := ∅; wq := ∅; xfers := []; fetches := []; purges := []; pool := [];
-     dispatched := []; finished := ∅ |}.
+     dispatched := []; finished := ∅; published := ∅ |}.
 
 Inductive label :=
 | LAssign (w : worker) (t : task) (srcs : gmap ds host)
 | LFlush
 | LDeliver (ev : event)                 (* one undelivered event reaches the controller *)
-| LFinish (w : worker)
+| LPublish (w : worker) (i : N)         (* the task held by w publishes its output number i *)
 | LXfer (x : ds * host * host)          (* a pending transmit command is executed *)
 | LFetch (x : ds * host)
 | LPurge (x : host * ds).
@@ -268,14 +269,14 @@ Definition exec (J : job) (E : env) (s : sys) (l : label) : res (sys * list cmd)
           else Next ({| ctl := c; store := store s; wq := <[w := t]> (wq s);
                         xfers := xfers s ++ ((λ p, (p.1, p.2, h)) <$> map_to_list srcs);
                         fetches := fetches s; purges := purges s; pool := pool s;
-                        dispatched := dispatched s ++ [(w, t)]; finished := finished s |},
+                        dispatched := dispatched s ++ [(w, t)]; finished := finished s; published := published s |},
                      ((λ p, CTransmit p.1 p.2 h) <$> map_to_list srcs) ++ [CTask w t])
       | Disabled => Disabled | Crash e => Crash e | Fail e => Fail e
       end
   | LFlush =>
       let '(c, fl, pl) := flush_c J (ctl s) in
       Next ({| ctl := c; store := store s; wq := wq s; xfers := xfers s; fetches := fetches s ++ fl;
-               purges := purges s ++ pl; pool := pool s; dispatched := dispatched s; finished := finished s |},
+               purges := purges s ++ pl; pool := pool s; dispatched := dispatched s; finished := finished s; published := published s |},
             ((λ p, CFetch p.1 p.2) <$> fl) ++ ((λ p, CPurge p.1 p.2) <$> pl))
   | LDeliver ev =>
       match list_remove ev (pool s) with
@@ -283,21 +284,31 @@ Definition exec (J : job) (E : env) (s : sys) (l : label) : res (sys * list cmd)
       | Some pool' =>
           match notify J E (ctl s) ev with
           | Next c => Next ({| ctl := c; store := store s; wq := wq s; xfers := xfers s; fetches := fetches s;
-                               purges := purges s; pool := pool'; dispatched := dispatched s; finished := finished s |}, [])
+                               purges := purges s; pool := pool'; dispatched := dispatched s; finished := finished s; published := published s |}, [])
           | Disabled => Disabled | Crash e => Crash e | Fail e => Fail e
           end
       end
-  | LFinish w =>
+  | LPublish w i =>
+      (* the task held by worker w yields its next output (key-sorted order: output i only after all
+         outputs below i) and publishes it; a task with n outputs takes n such steps and other events
+         may interleave between them.  The task body runs only with every input present on the host
+         (worker loop + Memory.provide). *)
       match wq s !! w, e_host E !! w with
       | Some t, Some h =>
-          (* the worker loop starts the sequence only when every input has been announced on its host *)
-          if negb (bool_decide (set_Forall (λ d, (h, d) ∈ store s) (ins J t))) then Disabled
-          else if negb (bool_decide (set_Forall (λ d, (h, d) ∉ store s) (outs J t))) then Fail "output already present in shared memory"
-          else Next ({| ctl := ctl s;
-                        store := store s ∪ set_map (λ d, (h, d)) (outs J t);
-                        wq := delete w (wq s); xfers := xfers s; fetches := fetches s; purges := purges s;
-                        pool := pool s ++ (EPub w <$> outs_list J t); dispatched := dispatched s;
-                        finished := {[t]} ∪ finished s |}, [])
+          let d : ds := (t, i) in
+          if negb (bool_decide (set_Forall (λ d', (h, d') ∈ store s) (ins J t))) then Disabled
+          else if negb (bool_decide (d ∈ outs J t) && bool_decide (d ∉ published s)
+                        && bool_decide (set_Forall (λ d' : ds, d'.2 < i → d' ∈ published s) (outs J t))) then Disabled
+          else if bool_decide ((h, d) ∈ store s) then Fail "output already present in shared memory"
+          else
+            let last := bool_decide (d = last_out J t) in
+            Next ({| ctl := ctl s;
+                     store := {[(h, d)]} ∪ store s;
+                     wq := if last then delete w (wq s) else wq s;
+                     xfers := xfers s; fetches := fetches s; purges := purges s;
+                     pool := pool s ++ [EPub w d]; dispatched := dispatched s;
+                     finished := if last then {[t]} ∪ finished s else finished s;
+                     published := {[d]} ∪ published s |}, [])
       | _, _ => Disabled
       end
   | LXfer (d, src, tgt) =>
@@ -307,7 +318,7 @@ Definition exec (J : job) (E : env) (s : sys) (l : label) : res (sys * list cmd)
           if negb (bool_decide ((src, d) ∈ store s)) then Fail "transmit source does not hold the dataset"
           else Next ({| ctl := ctl s; store := {[(tgt, d)]} ∪ store s;
                         wq := wq s; xfers := xfers'; fetches := fetches s; purges := purges s;
-                        pool := pool s ++ [EXfer tgt d]; dispatched := dispatched s; finished := finished s |}, [])
+                        pool := pool s ++ [EXfer tgt d]; dispatched := dispatched s; finished := finished s; published := published s |}, [])
       end
   | LFetch (d, src) =>
       match list_remove (d, src) (fetches s) with
@@ -317,7 +328,7 @@ Definition exec (J : job) (E : env) (s : sys) (l : label) : res (sys * list cmd)
           else Next ({| ctl := ctl s; store := store s; wq := wq s; xfers := xfers s; fetches := fetches';
                        purges := purges s;
                        pool := pool s ++ [EPay d (if bool_decide (d ∈ j_none J) then None else Some d)];
-                       dispatched := dispatched s; finished := finished s |}, [])
+                       dispatched := dispatched s; finished := finished s; published := published s |}, [])
       end
   | LPurge (h, d) =>
       match list_remove (h, d) (purges s) with
@@ -325,7 +336,7 @@ Definition exec (J : job) (E : env) (s : sys) (l : label) : res (sys * list cmd)
       | Some purges' =>
           Next ({| ctl := ctl s; store := store s ∖ {[(h, d)]}; wq := wq s; xfers := xfers s;
                    fetches := fetches s; purges := purges'; pool := pool s;
-                   dispatched := dispatched s; finished := finished s |}, [])
+                   dispatched := dispatched s; finished := finished s; published := published s |}, [])
       end
   end.
 
